@@ -464,7 +464,14 @@ fn gen_op(r: &mut Rng, doc: &Document, safe_only: bool) -> Option<Op> {
             let target = if !pages.is_empty() && r.chance(5, 6) { *r.pick(&pages) } else if !ids.is_empty() { *r.pick(&ids) } else { (1, 0) };
             Op::AddContent(target, (0..r.usize(8)).map(|_| r.byte()).collect())
         }
-        12 => { if ids.is_empty() { return None; } Op::RmAnnot(*r.pick(&ids)) }
+        12 => {
+            if ids.is_empty() { return None; }
+            // mostly an id that some page's Annots really holds; sometimes the same number with another generation
+            let mut annots: Vec<ObjectId> = vec![];
+            for p in &pages { if let Some(Object::Dictionary(d)) = doc.objects.get(p) { if let Ok(Object::Array(a)) = d.get(b"Annots") { for x in a { if let Object::Reference(i) = x { annots.push(*i); } } } } }
+            if !annots.is_empty() && r.chance(3, 4) { let a = *r.pick(&annots); if r.chance(1, 3) { Op::RmAnnot((a.0, a.1.wrapping_add(1))) } else { Op::RmAnnot(a) } }
+            else { Op::RmAnnot(*r.pick(&ids)) }
+        }
         13 | 14 => {
             if ids.is_empty() { return None; }
             let page = if !pages.is_empty() && r.chance(7, 8) { *r.pick(&pages) } else { *r.pick(&ids) };
